@@ -1,6 +1,7 @@
 package world
 
 import (
+	"bytes"
 	"fmt"
 	"math/big"
 
@@ -397,6 +398,24 @@ func (w *World) storageProofV2(s consensus.State, cie types.ChainIndexElement, i
 		w.violate("C07", "challenge-index", fmt.Sprintf("StorageProofLeafIndex(%d, %v, %v) = %d, definition gives %d", fc.Filesize, cie.ChainIndex.ID, id, idx, want))
 	}
 	leaves := ref.FileLeaves(data)
+	// the host's side: leaf hashes through the library, each leaf a window into
+	// the stored file, which holds more than this contract covers (a file grown
+	// in place); hashing reads the file
+	if len(data) > 0 {
+		stored := append(append(make([]byte, 0, len(data)+200), data...), sim.HashBytes("grown", uint64(len(data)), 1, 130)...)
+		before := append([]byte(nil), stored...)
+		file := stored[:len(data)]
+		for i, off := 0, 0; off < len(file); i, off = i+1, off+64 {
+			if got := s.StorageProofLeafHash(file[off:min(off+64, len(file))]); got != leaves[i] {
+				w.violate("C07", "leaf-hash", fmt.Sprintf("StorageProofLeafHash of leaf %d of a %d-byte file = %v, definition gives %v", i, len(file), got, leaves[i]))
+				break
+			}
+		}
+		if !bytes.Equal(stored, before) {
+			w.violate(w.propAmong("C07", "C09"), "leaf-hash-writes-to-file", fmt.Sprintf("hashing the leaves of a %d-byte file through StorageProofLeafHash changed the bytes stored after it", len(file)))
+		}
+		w.stats.Inc("probe.c07.host-leaf-hashes")
+	}
 	sp := &types.V2StorageProof{ProofIndex: cie.Copy(), Leaf: ref.LeafSegment(data, int(idx))}
 	if len(leaves) > 0 {
 		sp.Proof = ref.TreePath(leaves, int(idx))
